@@ -508,3 +508,136 @@ SPECS["C03"] = {
     "level_note": "the reference decoder is a single left-to-right pass over the five entities, written in the harness",
     "assumptions": ["loop keys and names used in template positions contain no braces or NULs (they could not be written in a template)"],
 }
+
+
+# ---------------------------------------------------------------------------------------------- C01
+def plan_c01(tier, seed):
+    if tier == "quick":
+        return (checks("main", 5, 8000) + checks("escape_off_scalar", 1, 5000)
+                + fuzz("fuzz", 6, 300000, "corpus/C01", "dict/template.dict", max_len=256, max_time=50))
+    return (checks("main", 5, 150000) + checks("escape_off_scalar", 1, 80000) + checks("nohook_avx2", 1, 80000)
+            + fuzz("fuzz", 8, 8000000, "corpus/C01", "dict/template.dict", max_len=512, max_time=900)
+            + fuzz("fuzz_nohook", 1, 4000000, "corpus/C01", "dict/template.dict", max_len=512, max_time=900))
+
+
+SPECS["C01"] = {
+    "builds": {
+        "main": Build("main", "harness/c01_template.cpp", extra=["-fsanitize=integer-divide-by-zero"]),
+        "escape_off_scalar": Build("escape_off_scalar", "harness/c01_template.cpp", simd="none", defs=["QENTEM_AUTO_ESCAPE_HTML=0"]),
+        "nohook_avx2": Build("nohook_avx2", "harness/c01_template.cpp", hook=False, simd="avx2"),
+        "fuzz": Build("fuzz", "harness/c01_template.cpp", san="fuzz", defs=["VERIF_FUZZ"], link_rc=False, extra=["-fsanitize=integer-divide-by-zero"]),
+        "fuzz_nohook": Build("fuzz_nohook", "harness/c01_template.cpp", san="fuzz", defs=["VERIF_FUZZ"], link_rc=False, hook=False, simd="avx2"),
+    },
+    "default_build": "main",
+    "bin_build": "fuzz",
+    "plan": plan_c01,
+    "rule": ("(a) libFuzzer: byte 0 = width (char/char16_t/char32_t/wchar_t) | one of 8 value trees (every scalar kind, zero and negative numbers, removed members, "
+             "empty containers, nesting, a phrase with placeholders, objects with the group key at different positions) | cached-or-direct render; the rest are code "
+             "units in an exact-size heap buffer; tag dictionary; documented templates as seed corpus on even workers, empty corpus on odd ones; "
+             "(b) rapidcheck: templates from a text-level grammar of all documented tags over the palette's names, with 0-6 generated mutations (truncate, delete, "
+             "duplicated slice, spliced tag fragment, swapped quote, dropped closer, inserted NUL / wide unit, replacement, cut after an opener). Inputs with more "
+             "than 5 loop openers are counted and skipped (rendering cost is exponential in loop nesting by design). Oracle inside the target: ASan/UBSan, no "
+             "exception, stream prefix untouched, value unchanged, cached render == direct render, allocation ledger empty. non-trivial = the scanner recognised at "
+             "least one tag; distinct by input"),
+    "engine": "libFuzzer + rapidcheck",
+    "technique": "coverage-guided fuzzing (libFuzzer with a tag dictionary, ASan/UBSan, oracle in the target) plus grammar-based generation with mutations (rapidcheck)",
+    "level_text": ("Arbitrary and mutated template texts are rendered against a palette of value trees in all character widths; memory safety, traps and exceptions are "
+                   "observed by sanitizers on exact-size buffers with exact-fit container growth, termination by bounded work per input. Sampling over an infinite "
+                   "input space; termination for all inputs cannot be decided by this technique."),
+    "level_note": "trusts ASan/UBSan; inputs with more than 5 nested loop openers are outside the bounded-work domain (counted in the evidence as discarded)",
+    "assumptions": ["templates up to 512 code units", "at most 5 <loop openers per input"],
+}
+
+
+# ---------------------------------------------------------------------------------------------- C02
+def plan_c02(tier, seed):
+    if tier == "quick":
+        return checks("main", 7, 12000) + checks("scalar_nohook", 1, 8000)
+    return checks("main", 10, 150000) + checks("scalar_nohook", 3, 100000) + checks("avx2", 3, 100000)
+
+
+SPECS["C02"] = {
+    "builds": {
+        "main": Build("main", "harness/c02_template.cpp"),
+        "scalar_nohook": Build("scalar_nohook", "harness/c02_template.cpp", simd="none", hook=False),
+        "avx2": Build("avx2", "harness/c02_template.cpp", simd="avx2"),
+    },
+    "default_build": "main",
+    "plan": plan_c02,
+    "rule": ("case = entropy bytes -> (value tree, template AST) generated together: text runs, {var:}/{raw:} with paths of keys and numeric ids (resolving, missing, "
+             "wrong kind, container-valued), {math:} over literals and variables, {svar:} with 1-3 sub tags over phrases with valid / invalid / trailing placeholders, "
+             "inline if (either attribute order, one attribute absent, both quote kinds, sub tags inside the values), if / else-if / else chains in all documented "
+             "spellings, loops with any subset of set / value / sort / group over arrays and objects (also the root and outer loop values), nested to depth 5, "
+             "loop-in-if; rendered in char/char16_t/char32_t/wchar_t and scalar/SSE2/AVX2 builds; non-trivial = at least 2 tags and at least one path that resolves; "
+             "distinct by entropy and width"),
+    "engine": "rapidcheck",
+    "technique": "property-based testing (rapidcheck) against a reference interpreter of Documentation/Template.md that walks the generator's AST (never parses template text)",
+    "level_text": ("The library's output must equal, byte for byte, the expansion computed by an independent reference interpreter written from the documentation over the "
+                   "AST the template text was spelled from. The generator stays inside the documented grammar (numeric ids on arrays, unique loop value names, sort "
+                   "only on distinct scalars of one kind, group only where every object holds the key, no sub-paths where the documentation is silent). Sampling."),
+    "level_note": "trusts the reference interpreter (its semantics are listed in DESIGN.md section 4, C02) and glibc printf for the 2-digit SemiFixed text of reals",
+    "assumptions": ["template and value text is ASCII (Unicode transport is covered by C06/C20)"],
+}
+
+
+# ---------------------------------------------------------------------------------------------- C17
+def plan_c17(tier, seed):
+    if tier == "quick":
+        return checks("asan", 4, 2500) + checks("tsan", 4, 1500)
+    return checks("asan", 8, 60000) + checks("tsan", 8, 40000)
+
+
+SPECS["C17"] = {
+    "builds": {
+        "asan": Build("asan", "harness/c02_template.cpp", defs=["VERIF_C17"], extra=["-pthread"]),
+        "tsan": Build("tsan", "harness/c02_template.cpp", san="tsan", defs=["VERIF_C17"], hook=False),
+    },
+    "default_build": "asan",
+    "plan": plan_c17,
+    "rule": ("case = the C02 generator's (value, template) pair (every tag kind incl. sort and group); per case: a fresh single render, then 3 renders through one parsed "
+             "tag cache into streams that already hold content, a render through a copy of the cache, Template::Render with a caller-owned cache twice, and 4 threads "
+             "x 8 renders through the shared const cache and shared value; all outputs must equal the fresh render (and the C02 reference), the value's JSON text and "
+             "the template bytes must be unchanged; built with AddressSanitizer and, separately, ThreadSanitizer; non-trivial as C02; distinct by entropy and width"),
+    "engine": "rapidcheck",
+    "technique": "property-based testing (rapidcheck) with a metamorphic oracle (cached / repeated / copied-cache / concurrent renders == fresh render) under ThreadSanitizer and AddressSanitizer",
+    "level_text": ("Purity is checked as a metamorphic relation over generated templates; data-race freedom rests on ThreadSanitizer's happens-before detection while 4 threads "
+                   "render through the shared cache and value (the allocation ledger is switched off in that build so that its mutex adds no synchronisation). "
+                   "Thread interleavings are sampled by the OS scheduler, not enumerated: all interleavings cannot be decided by this technique."),
+    "level_note": "TSan flags unsynchronised conflicting accesses that are executed, largely independent of timing; schedules are not controlled",
+    "assumptions": [],
+}
+
+
+# ---------------------------------------------------------------------------------------------- C16
+def plan_c16(tier, seed):
+    k = 1 if tier == "quick" else 25
+    return (checks("main", 4, 3000 * k) + checks("value_history", 2, 1500 * k) + checks("harray_history", 2, 2500 * k)
+            + checks("sequence_history", 2, 4000 * k) + checks("json_inputs", 2, 6000 * k) + checks("template_inputs", 2, 3000 * k))
+
+
+SPECS["C16"] = {
+    "builds": {
+        "main": Build("main", "harness/c16_lifetimes.cpp"),
+        "value_history": Build("value_history", "harness/c12_value.cpp"),
+        "harray_history": Build("harray_history", "harness/c13_harray.cpp"),
+        "sequence_history": Build("sequence_history", "harness/c14_sequences.cpp"),
+        "json_inputs": Build("json_inputs", "harness/c05_jsonsafe.cpp"),
+        "template_inputs": Build("template_inputs", "harness/c01_template.cpp"),
+    },
+    "default_build": "main",
+    "plan": plan_c16,
+    "rule": ("every case of every harness runs between a reset of the allocation ledger (hooked into Memory::Allocate / Memory::Deallocate through the library's own "
+             "accounting seam) and a check that no block is live, none was added twice and none was released that was not live, under AddressSanitizer (use after "
+             "free, double / invalid free) and LeakSanitizer at exit. Runs: (main) tag-cache lifetime machine - 1-3 generated or malformed templates, a pool of 4 caches, "
+             "3-27 operations of parse / copy-assign / move-assign / copy-construct+render / move-construct / clear / reset / destroy / render, caches destroyed in a "
+             "generated order, plus a rejected JSON text; and the operation histories of C12 (Value), C13 (hash array), C14 (Array/String/StringStream) and the inputs "
+             "of C05 (mutated JSON, rejected texts) and C01 (mutated templates). non-trivial = the case contains a failure path (rejected parse, dropped unfinished "
+             "tag) or an ownership transfer (main), or is non-trivial by the rule of its own harness; distinct by entropy"),
+    "engine": "rapidcheck",
+    "technique": "model-based / generated-history property testing (rapidcheck) with an allocation ledger invariant checked after every case, under AddressSanitizer and LeakSanitizer",
+    "level_text": ("Exactly-once release is decided per generated history by an allocation ledger that sees every block the library allocates and frees, together with "
+                   "ASan's use-after-free / double-free detection; the dedicated machine exercises parsed-tag-cache lifetimes, the other runs reuse the stateful "
+                   "harnesses of C12-C14 and the malformed-input generators of C01/C05. Sampling over histories."),
+    "level_note": "the ledger relies on every allocation going through Memory::Allocate/Deallocate (true for the whole library: it is STL-free)",
+    "assumptions": [],
+}
